@@ -25,6 +25,7 @@ type RunCtx struct {
 	Race    bool // race mode: free-running goroutines under the race detector; no functional oracle
 
 	PostBubble []func() // run after the bubble has ended (e.g. checks that use real timers)
+	FPTokens   []string // scenario-shape tokens folded into the distinctness fingerprint (input-dominated properties)
 
 	Violations []Violation
 	Hash       uint64
@@ -88,4 +89,9 @@ func sortedKeys[V any](m map[string]V) []string {
 	}
 	sort.Strings(ks)
 	return ks
+}
+
+// Shape adds a scenario-shape token to the run's distinctness fingerprint.
+func (rc *RunCtx) Shape(format string, args ...any) {
+	rc.FPTokens = append(rc.FPTokens, fmt.Sprintf(format, args...))
 }
